@@ -33,6 +33,9 @@ pub enum AOp {
     /// sync of remote i, snapshot keys in the p-th (p >= 1) lexicographic permutation of the
     /// ascending order: the lane reads them from a `HashMap`, so every order is a behaviour
     SyncP(u8, u8),
+    /// remote i, whose first sync is still in progress, closes its link, forgets its replica and
+    /// syncs again (keys ascending)
+    Resync(u8),
     Pop,
 }
 
@@ -67,6 +70,9 @@ struct Syncer {
     replica: BTreeMap<i32, i32>,
     /// per key: every state (Some value / absent) the key was in since the sync started
     window: BTreeMap<i32, BTreeSet<Option<i32>>>,
+    /// sync requests of this remote that the lane has not answered with `Synced` yet (2 after a
+    /// re-sync that overtook the first one)
+    outstanding: u8,
 }
 
 struct ASim {
@@ -97,7 +103,7 @@ impl ASim {
             real,
             truth: BTreeMap::new(),
             observer: BTreeMap::new(),
-            syncers: (0..2).map(|_| Syncer { clear_pending_at_sync: false, phase: Phase::NotStarted, replica: BTreeMap::new(), window: BTreeMap::new() }).collect(),
+            syncers: (0..2).map(|_| Syncer { clear_pending_at_sync: false, phase: Phase::NotStarted, replica: BTreeMap::new(), window: BTreeMap::new(), outstanding: 0 }).collect(),
             implicit_link,
             syncer_linked: vec![false, false],
             check_snapshot: CHECK_SNAPSHOT.load(std::sync::atomic::Ordering::Relaxed),
@@ -131,9 +137,9 @@ impl ASim {
                 self.truth.clear();
                 self.note_windows();
             }
-            AOp::Sync(_) | AOp::SyncP(..) => {
+            AOp::Sync(_) | AOp::SyncP(..) | AOp::Resync(_) => {
                 let (i, p) = match op {
-                    AOp::Sync(i) => (i, 0usize),
+                    AOp::Sync(i) | AOp::Resync(i) => (i, 0usize),
                     AOp::SyncP(i, p) => (i, *p as usize),
                     _ => unreachable!(),
                 };
@@ -143,6 +149,7 @@ impl ASim {
                 self.real.queue().sync(sid(*i), keys);
                 let s = &mut self.syncers[*i as usize];
                 s.clear_pending_at_sync = clear_pending;
+                s.outstanding += 1;
                 s.phase = Phase::Syncing;
                 s.replica.clear();
                 s.window.clear();
@@ -163,8 +170,12 @@ impl ASim {
             SyncEv(Uuid, MapOperation<i32, i32>),
             Synced(Uuid),
         }
+        let claimed_empty = self.real.queue().is_empty();
         let out = {
             let r = self.real.pop_operation();
+            if claimed_empty && r.is_some() {
+                return Err("law=is_empty_means_nothing_to_write: the lane's queues report that they are empty (the lane then tells the agent it is done) although an operation can still be popped: it would never be written".into());
+            }
             match r {
                 None => return Ok(false),
                 Some(LaneResponse::StandardEvent(op)) => Out::Std(own(op)),
@@ -191,8 +202,14 @@ impl ASim {
                 let i = (id.as_u128() - 100) as usize;
                 self.syncer_linked[i] = true;
                 let s = &mut self.syncers[i];
-                if s.phase != Phase::Syncing {
+                if s.phase != Phase::Syncing || s.outstanding == 0 {
                     return Err("law=synced_only_after_sync: Synced popped for a remote that is not syncing".into());
+                }
+                s.outstanding -= 1;
+                if s.outstanding > 0 {
+                    // the answer to the sync that was overtaken by a re-sync: the remote is still
+                    // waiting for the answer to its latest request
+                    return Ok(true);
                 }
                 // consistent snapshot: every key holds a state it was in during the sync window
                 for k in KEYS.iter().cloned().filter(|_| self.check_snapshot) {
@@ -220,7 +237,7 @@ impl ASim {
         // `queue()` needs &mut; the key is computed on a rebuilt simulation so this is fine
         let mut s = format!("c={:?};o={:?};", content, self.observer);
         for (i, sy) in self.syncers.iter().enumerate() {
-            s.push_str(&format!("s{}={:?}/{:?}/{:?}/{};", i, sy.phase, sy.replica, sy.window, self.syncer_linked[i]));
+            s.push_str(&format!("s{}={:?}/{:?}/{:?}/{}/{};", i, sy.phase, sy.replica, sy.window, self.syncer_linked[i], sy.outstanding));
         }
         s
     }
@@ -306,7 +323,13 @@ fn agent_enabled(hist: &[AOp]) -> Vec<AOp> {
     v.push(AOp::Clr);
     for i in 0..2u8 {
         // one sync per remote per history (a second sync of the same remote would need the first to finish)
-        if !hist.iter().any(|o| matches!(o, AOp::Sync(j) | AOp::SyncP(j, _) if *j == i)) {
+        let synced_once = hist.iter().any(|o| matches!(o, AOp::Sync(j) | AOp::SyncP(j, _) if *j == i));
+        if synced_once && !hist.iter().any(|o| *o == AOp::Resync(i)) {
+            // (whether the first sync is still in progress is decided when the history is built:
+            // a re-sync after it completed is an ordinary second sync and equally legal)
+            v.push(AOp::Resync(i));
+        }
+        if !synced_once {
             v.push(AOp::Sync(i));
             let mut content: BTreeSet<i32> = BTreeSet::new();
             for o in hist {
